@@ -217,6 +217,25 @@ def rule_guard(ctx):
            'or a later free() on one of them releases a number that a newer buffer owns', fa.node, fa.module)
 
 
+def rule_setn_count(ctx):
+    ctx.rule('C17.cmds', 'every hand-built /b_setn names, after the start index, the number of values that follow: the count argument is '
+                         'len() of the very sequence that is spread after it (a count taken from a size or a remainder lets the server '
+                         'read surplus values as a further index/count group)')
+    n = 0
+    for f in sorted((x for x in ctx.repo.functions.values() if x.module.name == 'sc3.synth.buffer'), key=lambda x: x.fq):   # nested functions too
+        for c in U.calls(f.node):
+            if not (isinstance(c.func, ast.Attribute) and c.func.attr == 'send_msg' and c.args and U.literal(c.args[0]) == '/b_setn'):
+                continue
+            stars = [a for a in c.args if isinstance(a, ast.Starred)]
+            if len(stars) != 1 or len(c.args) < 5 or c.args[-1] is not stars[0]:
+                continue          # the pair-wise form of Buffer.setn builds its counts per pair (C17.cmds sequence-values)
+            n += 1
+            cnt, seq = norm(c.args[-2]), norm(stars[0].value)
+            ctx.ob('C17.cmds', f'{f.fq}:/b_setn:count-is-len', cnt == f'len({seq})',
+                   f'/b_setn is sent with count `{cnt}` followed by *{seq}: the count must be len({seq})', c, f.module)
+    ctx.require(n >= 1, 'C17.cmds', 'no /b_setn with a spread value list found in Buffer')
+
+
 def rule_node_free(ctx):
     ctx.rule('C17.pair', 'Node.free emits /n_free for its id whenever it is asked to send: the only condition is send_flag, nothing returns before '
                          '(a node object has no "freed" state of its own: group is None also for basic_new nodes and nodes placed next to them)')
@@ -471,6 +490,7 @@ def run(ctx):
     rule_guard(ctx)
     rule_pair(ctx)
     rule_node_free(ctx)
+    rule_setn_count(ctx)
     rule_range(ctx)
     rule_bind(ctx)
     rule_convenience(ctx)
@@ -478,6 +498,8 @@ def run(ctx):
 
 
 MUTANTS = [
+    dict(rule='C17.cmds', name='streamed /b_setn chunks carry a count taken from the remaining size (seed C17-m)', file='sc3/synth/buffer.py',
+         old="                    len(sublst), *sublst)", new="                    min(max_bndl_size, size - (start_frame + pos)), *sublst)"),
     dict(rule='C17.guard', name='(fix reverted) copy_data does not refuse a freed destination buffer', file='sc3/synth/buffer.py',
          old="        if self._bufnum is None or dst_buffer.bufnum is None:\n            raise BufferAlreadyFreed('copy_data')",
          new="        if self._bufnum is None:\n            raise BufferAlreadyFreed('copy_data')"),
